@@ -86,6 +86,10 @@ func Family(tier string, extraLens []int) []tmpl.Env {
 		[]tmpl.MockShape{{}, {Methods: []tmpl.MethodShape{big}}},
 		[]tmpl.MockShape{{Methods: []tmpl.MethodShape{{NParams: 1, NResults: 1}}}, {TypeParams: []tmpl.TPShape{{}}, Methods: []tmpl.MethodShape{nul, big}}},
 		[]tmpl.MockShape{{}, {}},
+		// name pairs "Iface:Name", and the same interface requested twice under two names
+		[]tmpl.MockShape{{Aliased: true, Methods: []tmpl.MethodShape{{NParams: 1, NResults: 1}}}, {Methods: []tmpl.MethodShape{nul}}},
+		[]tmpl.MockShape{{Aliased: true, Methods: []tmpl.MethodShape{big}}, {Aliased: true, DupOfFirst: true}},
+		[]tmpl.MockShape{{Aliased: true, Methods: []tmpl.MethodShape{nul}}, {Methods: []tmpl.MethodShape{big}}, {DupOfFirst: true}},
 	)
 	if tier == "thorough" {
 		three := []tmpl.MethodShape{{NParams: 3, NResults: 1}, nul, {NParams: 1, Variadic: true, NResults: 3}}
@@ -134,6 +138,7 @@ func hasPrefix(s string, ps []string) bool {
 }
 
 type skelOut struct {
+	derived []*tmpl.Derived
 	env    tmpl.Env
 	sk     *tmpl.Skeleton
 	unit   *skel.Unit
@@ -188,19 +193,40 @@ func (c *Ctx) RunSkeletons(opt SkelOpts) {
 			}()
 			visited[i] = map[parse.Node]bool{}
 			model := tmpl.BuildModel(envs[i])
-			sks, err := tmpl.Expand(src, func() *interp.Machine {
-				m := interp.New(c.Prog)
-				tmpl.InstallTypesModels(m, c.Prog)
-				return m
-			}, model, visited[i])
+			// the data is derived from the generator: (*Mocker).Mock interpreted on the abstract package
+			dvs, err := tmpl.Derive(c.Prog, model, "")
 			if err != nil {
 				outs[i] = []skelOut{{env: envs[i], err: err}}
 				return
 			}
-			for _, sk := range sks {
+			var data *interp.Struct
+			for _, dv := range dvs {
+				if !dv.Failed && dv.Data != nil && data == nil {
+					data = dv.Data
+				}
+			}
+			if data == nil {
+				outs[i] = []skelOut{{env: envs[i], derived: dvs, err: &tmpl.Undecided{Msg: "no successful path through (*Mocker).Mock yields well-formed template data for this environment (see the G-DATA/G-MOCK findings)"}}}
+				return
+			}
+			model = tmpl.ModelFromData(model, data)
+			sks, err := tmpl.ExpandData(src, func() *interp.Machine {
+				m := interp.New(c.Prog)
+				tmpl.InstallTypesModels(m, c.Prog)
+				return m
+			}, model, data, visited[i])
+			if err != nil {
+				outs[i] = []skelOut{{env: envs[i], derived: dvs, err: err}}
+				return
+			}
+			for k, sk := range sks {
 				u := skel.Build(c.Prog, sk)
 				res, typed := skel.Analyze(u)
-				outs[i] = append(outs[i], skelOut{env: envs[i], sk: sk, unit: u, res: res, typed: typed})
+				o := skelOut{env: envs[i], sk: sk, unit: u, res: res, typed: typed}
+				if k == 0 {
+					o.derived = dvs
+				}
+				outs[i] = append(outs[i], o)
 			}
 		}(i)
 	}
@@ -243,11 +269,34 @@ func (c *Ctx) RunSkeletons(opt SkelOpts) {
 	if opt.Env == nil {
 		run.Check("S-COVER", "all-template-nodes-reached", src.Line(0), unreached == 0, "")
 	}
+	mockPos := "pkg/moq/moq.go"
+	if fn := c.Prog.LookupFunc(load.PkgMoq, "Mocker.Mock"); fn != nil {
+		mockPos = c.Prog.Pos(fn.Pos())
+	}
+	npaths := 0
 	nsk, distinct := 0, map[string]bool{}
 	sampleShown := 0
 	for i := range outs {
 		for _, o := range outs[i] {
 			envs := o.env.String()
+			npaths += len(o.derived)
+			for _, dv := range o.derived {
+				for _, n := range dv.Notes {
+					if hasPrefix(n.Rule, opt.Notes) {
+						run.Violate(core.Violation{Rule: n.Rule, Key: n.Key, Pos: c.Prog.Pos(n.Pos), Msg: n.Msg, Env: envs})
+					}
+				}
+				for _, ob := range dv.Obs {
+					if !hasPrefix(ob.Rule, opt.Rules) {
+						continue
+					}
+					if ob.OK {
+						run.Check(ob.Rule, ob.Key, mockPos, true, "")
+					} else {
+						run.Fail(ob.Rule, ob.Key, mockPos, core.Violation{Msg: ob.Msg, Env: envs + " path{" + dv.Choices + "}"})
+					}
+				}
+			}
 			if o.err != nil {
 				pos, msg := src.Line(0), o.err.Error()
 				if u, ok := o.err.(*tmpl.Undecided); ok {
@@ -302,6 +351,7 @@ func (c *Ctx) RunSkeletons(opt SkelOpts) {
 			}
 		}
 	}
+	run.Count("mock_paths_interpreted", npaths)
 	run.Count("skeletons", nsk)
 	run.Count("skeletons_distinct", len(distinct))
 }
